@@ -50,6 +50,11 @@
 (*        servers were never asked ("SERVFAIL: go to next server" says the   *)
 (*        comment in Query::run)                                             *)
 (*   D_ndots_ignored        search_host never asks for the name as-is first  *)
+(* Modelled as built (no documented rule is broken): the as-is name is       *)
+(* asked twice by a failing search when the root is on the search list (it   *)
+(* always is after ResolvConf::finalize / parse_search); after FORMERR the   *)
+(* identical request is sent once more (disable_edns only flips a flag no    *)
+(* one reads; the OPT record is added by the dgram transport regardless).    *)
 EXTENDS Integers, Sequences, FiniteSets, TLC
 
 CONSTANTS
